@@ -35,6 +35,9 @@ Check c07_replies_whole_under_cancellation_and_writes :
     WInv packet is_keepalive pong s (done ++ acc) ->
     conv_ok packet is_keepalive pong done (aconv packet parse ver_of is_keepalive version m verify pong fuel c s rs ws cancels wsched acc).
 Check c07_model_state_is_the_struct : state_tied = true.
+Check c07_reply_whole_or_the_error_is_returned : forall pong ws d r ws',
+  reply_then_return pong ws = (d, r, ws') ->
+  (r = WOk -> d = pong) /\ (forall e, r = WErr e -> exists rest, pong = d ++ rest /\ rest <> []).
 Print Assumptions c07_at_most_one_reply_written_first.
 Print Assumptions c07_reply_iff_keepalive.
 Print Assumptions c07_history_trace.
@@ -42,3 +45,4 @@ Print Assumptions c07_pong_frames.
 Print Assumptions c07_caller_writes_do_not_matter.
 Print Assumptions c07_replies_whole_under_cancellation_and_writes.
 Print Assumptions c07_model_state_is_the_struct.
+Print Assumptions c07_reply_whole_or_the_error_is_returned.
